@@ -256,6 +256,8 @@ class Interp:
             return True
         if isinstance(v, SymStr):
             return self.e.strlit('') != v.term
+        if isinstance(v, OpaqueStr) and any(isinstance(p, str) and p for p in v.parts):
+            return True
         if hasattr(v, 'sym_truth'):
             return v.sym_truth(self)
         raise Unsupported(f'truthiness of {v!r}')
